@@ -1,9 +1,12 @@
+mod alg;
 mod derived;
+mod ght;
 mod hist;
 mod laws;
 mod model;
 mod subj;
 mod tomb;
+mod varcoll;
 
 use std::cell::Cell;
 use std::collections::{BTreeMap, BTreeSet, HashMap, HashSet};
@@ -183,7 +186,7 @@ fn main() {
     vcommon::quiet_panics();
     let tier = ctx.tier();
     let w = Work {
-        random_cases: tier.pick(400, 8000),
+        random_cases: tier.pick(2000, 40000),
     };
     ctx.assume("item/key domains are treated as unbounded (u8 items drawn from 0..7): a set holding every item of a finite domain is not regarded as a top element");
     ctx.assume("array/vec-backed sets and maps are built duplicate-free; DomPair keys are totally ordered (Max/Min); Point values only meet equal values");
@@ -231,6 +234,27 @@ fn main() {
                 DomPair<Max<u8>, SH>, DomPair<Min<u8>, MH<Max<u8>>>, VecUnion<Max<u8>>, VecUnion<WithBot<Max<bool>>>,
                 MH<DomPair<Max<u8>, SH>>, MB<VecUnion<Max<u8>>>, DNamed, DTuple<SH, Max<u8>>, DWhere<MH<SB>>, UH, UB,
             );
+        }
+        "C07" => {
+            ctx.rule = "arguments a, Δa, b, Δb as relations over a 3×3 key/value domain (all 8^4 subset combinations of a 3-pair domain + random), fed to CartesianProductBimorphism (hash/btree combinations), KeyedBimorphism over CartesianProduct (hash and btree outputs), PairBimorphism, and the GHT bimorphisms (GhtBimorphism over GhtCartesianProduct, GhtNodeKeyed over GhtValTypeProduct); oracle: f(a⊔Δa,b) == f(a,b)⊔f(Δa,b) and symmetrically, by the output lattice's PartialEq, plus value equality with the relational product/join; non-trivial = a and Δa overlap but are incomparable and the result is non-empty".into();
+            ctx.floor = 300;
+            ght::c07(&mut ctx, &w);
+        }
+        "C08" => {
+            ctx.rule = "histories of insert / merge(other trie) / contains / partial_cmp+eq against another trie / prefix_iter (every prefix length the shape accepts) / find_containing_leaf on four trie shapes over three u8 columns with set storage, counted (multiset) storage for the non-lattice operations, and the deep-join bimorphism of two tries; oracle: BTreeSet<[u8;3]> (multiset for counted storage), subset order for comparisons (a panic is a violation), filter-by-prefix, relational join; all pairs of tries over a 4-row domain + random histories; non-trivial = a comparison of incomparable tries with ≥2 distinct heads".into();
+            ctx.floor = 200;
+            ght::c08(&mut ctx, &w);
+        }
+        "C09" => {
+            ctx.rule = "finite structures on carriers {0..n-1}: ALL binary operation tables for n ≤ 3 (each with every identity candidate and rotating absorbing elements / unary maps), ALL pairs of tables with all (zero, one, unary map) for n ≤ 2, textbook lawful structures for n ≤ 5 (Z_n, (max,min), left-zero semigroup) and their single-cell perturbations, random tables n = 3..5; oracle: checker.is_ok() ⇔ brute-force evaluation of the law documented on that function over all tuples (composites = conjunction of documented components); shipped semirings through hook H1 on generated element triples (dyadic f64, overflow-free u32); non-trivial = structure satisfying at least one law (so both verdicts occur); distinct = by table".into();
+            ctx.assume("integral_domain/field: the textbook side condition 0 ≠ 1 is not a per-tuple law and is not demanded");
+            ctx.floor = 2000;
+            alg::c09(&mut ctx, &w);
+        }
+        "C10" => {
+            ctx.rule = "histories of insert / extend (exact-size vectors up to 40 rows, large enough to force table growth) / drain / clone / from_iter / probe over rows (u8,u16) from a 12-tuple domain, run on VariadicHashSet, VariadicCountedHashSet and VariadicColumnMultiset; after every op len, is_empty, contains and get (stored multiplicity) for every domain tuple, iter/into_iter/drain as multisets and == are compared with a BTreeMap<tuple,count>; all histories ≤3 ops over a 9-op alphabet + random ≤13 ops; non-trivial = an extend onto a non-empty collection followed by lookups".into();
+            ctx.floor = 500;
+            varcoll::c10(&mut ctx, &w);
         }
         p => {
             eprintln!("property {p} is not served by engine lat");
